@@ -84,16 +84,16 @@ type handle struct {
 }
 
 type muxObs struct {
-	line      string   // canonical final state, comparable with the model's reply
-	muxLine   string   // request line for the model
-	negLine   string   // request line for the negotiation model
-	negChunk  int      // observed negotiated chunk size (0: not observable)
-	negCmp    bool
-	oracle    []string // property violations observed (What sentences)
-	detail    string
-	steps     int
-	rounds    int
-	stuck     bool
+	line     string // canonical final state, comparable with the model's reply
+	muxLine  string // request line for the model
+	negLine  string // request line for the negotiation model
+	negChunk int    // observed negotiated chunk size (0: not observable)
+	negCmp   bool
+	oracle   []string // property violations observed (What sentences)
+	detail   string
+	steps    int
+	rounds   int
+	stuck    bool
 }
 
 func (h *handle) run(o *[]string) {
@@ -198,3 +198,264 @@ func (c *muxCase) refSeq(chunk int) (chunks []string, term string) {
 	}
 	return chunks, "eof"
 }
+
+func (c *muxCase) body(o *muxObs) {
+	src := &rawSrc{chunks: c.chunks, term: c.term}
+	if c.gated {
+		src.gate = make(chan struct{})
+	}
+	var calls, bad atomic.Int32
+	hs := []*handle{{buf: buffer.NewCASBufferFromChunkReader(digestOf(c.content), src, backend(&calls, &bad))}}
+	var acts, negActs []string
+	created := false
+	busyBefore := func() []bool {
+		b := make([]bool, len(hs))
+		for i, h := range hs {
+			b[i] = h.busy.Load()
+		}
+		return b
+	}
+	settle := func(before []bool) {
+		synctest.Wait()
+		for src.gate != nil && src.waiting.Load() {
+			for j, h := range hs {
+				if j < len(before) && before[j] && !h.busy.Load() {
+					o.violate(whatEarly, fmt.Sprintf("consumer %d returned while the source read was still in progress", j))
+				}
+			}
+			src.gate <- struct{}{}
+			synctest.Wait()
+			o.rounds++
+		}
+	}
+	check := func() {
+		open, blocked := 0, 0
+		for j, h := range hs {
+			if p := h.panicV.Load(); p != nil {
+				o.violate(whatPanic, fmt.Sprintf("consumer %d: %v", j, p))
+			}
+			if !h.closed.Load() {
+				open++
+				if h.busy.Load() || (h.state == 1 && !h.served.Load() && created) {
+					blocked++
+				}
+			}
+		}
+		if open > 0 && src.closes.Load() > 0 {
+			o.violate(whatCloses, "source closed while a consumer had not closed")
+		}
+		if created && open > 0 && blocked == open {
+			o.violate(whatStuck, "every open consumer is blocked in Read")
+		}
+	}
+	completions := func(before []bool, except int) {
+		for j, h := range hs {
+			if j != except && before[j] && !h.busy.Load() {
+				acts = append(acts, fmt.Sprintf("re%d", j))
+			}
+		}
+	}
+	arrive := func(i int, discard bool, chunk int) {
+		h := hs[i]
+		h.state, h.discard, h.chunk, h.cmd = 1, discard, chunk, make(chan string)
+		if discard {
+			negActs = append(negActs, fmt.Sprintf("co%d.0.65536", i))
+		} else {
+			negActs = append(negActs, fmt.Sprintf("co%d.1.%d", i, chunk))
+		}
+		go h.run(nil)
+		settle(nil)
+		fresh := 0
+		for _, x := range hs {
+			if x.state == 0 {
+				fresh++
+			}
+		}
+		if fresh == 0 && !created {
+			created = true
+			for j, x := range hs {
+				if x.discard {
+					acts = append(acts, fmt.Sprintf("c%d", j))
+				}
+			}
+		}
+		check()
+	}
+	doRead := func(i int) {
+		before := busyBefore()
+		hs[i].busy.Store(true)
+		hs[i].cmd <- "read"
+		settle(before)
+		acts = append(acts, fmt.Sprintf("rb%d", i))
+		completions(before, i)
+		check()
+	}
+	doClose := func(i int) {
+		before := busyBefore()
+		hs[i].cmd <- "close"
+		settle(before)
+		hs[i].state = 2
+		acts = append(acts, fmt.Sprintf("c%d", i))
+		completions(before, i)
+		check()
+	}
+	callable := func(i int) bool {
+		if i < 0 || i >= len(hs) {
+			return false
+		}
+		h := hs[i]
+		return created && h.state == 1 && !h.discard && h.served.Load() && !h.busy.Load() && !h.closed.Load()
+	}
+	for _, st := range c.steps {
+		i, err := strconv.Atoi(st[1])
+		if err != nil || i < 0 || i >= len(hs) {
+			continue
+		}
+		switch st[0] {
+		case "clone":
+			if hs[i].state == 0 && len(hs) < 6 {
+				b1, b2 := hs[i].buf.CloneStream()
+				hs[i].buf = b1
+				hs = append(hs, &handle{buf: b2})
+				negActs = append(negActs, fmt.Sprintf("cl%d", i))
+				o.steps++
+			}
+		case "arrive", "discard":
+			if hs[i].state == 0 && len(hs) >= 2 {
+				chunk := 65536
+				if st[0] == "arrive" && len(st) >= 3 {
+					if v, err := strconv.Atoi(st[2]); err == nil && v >= 1 {
+						chunk = v
+					}
+				}
+				arrive(i, st[0] == "discard", chunk)
+				o.steps++
+			}
+		case "read":
+			if callable(i) {
+				doRead(i)
+				o.steps++
+			}
+		case "close":
+			if callable(i) {
+				doClose(i)
+				o.steps++
+			}
+		}
+	}
+	c.finish(o, src, &hs, &acts, &negActs, &created, arrive, doClose, callable, &calls)
+}
+
+func (c *muxCase) finish(o *muxObs, src *rawSrc, hsp *[]*handle, acts, negActs *[]string, created *bool,
+	arrive func(int, bool, int), doClose func(int), callable func(int) bool, calls *atomic.Int32) {
+	if len(*hsp) < 2 {
+		(*hsp)[0].buf.Discard()
+		return
+	}
+	for i := range *hsp {
+		if (*hsp)[i].state == 0 {
+			arrive(i, true, 0)
+		}
+	}
+	for progress := true; progress; {
+		progress = false
+		for i := range *hsp {
+			if callable(i) {
+				doClose(i)
+				progress = true
+			}
+		}
+	}
+	hs := *hsp
+	minChunk := 65536
+	var longest []string
+	for j, h := range hs {
+		if !h.closed.Load() {
+			o.violate(whatStuck, fmt.Sprintf("consumer %d never got to close", j))
+			o.stuck = true
+		}
+		if !h.discard && h.chunk < minChunk {
+			minChunk = h.chunk
+		}
+		if len(h.results) > len(longest) {
+			longest = h.results
+		}
+	}
+	panicked := 0
+	var parts []string
+	for j, h := range hs {
+		if h.panicV.Load() != nil {
+			panicked = 1
+		}
+		if !isPrefix(h.results, longest) {
+			o.violate(whatDiffer, fmt.Sprintf("consumer %d: %v, longest: %v", j, h.results, longest))
+		}
+		if h.maxLen > minChunk {
+			o.violate(whatChunk, fmt.Sprintf("consumer %d got %d bytes, smallest request %d", j, h.maxLen, minChunk))
+		}
+		if n := len(h.results); n > 0 && h.results[n-1] == "eof" && string(h.data) != string(c.content) {
+			o.violate(whatData, fmt.Sprintf("consumer %d read %x to EOF, blob is %x", j, h.data, c.content))
+		}
+		st := "x"
+		if !h.closed.Load() {
+			st = "?"
+		}
+		got := "-"
+		if len(h.results) > 0 {
+			got = strings.Join(h.results, ",")
+		}
+		parts = append(parts, fmt.Sprintf("%d:%s:%s", j, st, got))
+	}
+	if !o.stuck && src.closes.Load() != 1 {
+		o.violate(whatCloses, fmt.Sprintf("Close was called %d times", src.closes.Load()))
+	}
+	if calls.Load() > 1 {
+		o.violate(whatCallback, fmt.Sprintf("%d calls", calls.Load()))
+	}
+	o.line = fmt.Sprintf("ok closes=%d panic=%d | %s", src.closes.Load(), panicked, strings.Join(parts, " "))
+	chunks, term := c.refSeq(minChunk)
+	o.muxLine = fmt.Sprintf("mux %d %s %s ; %s", len(hs), term, strings.Join(chunks, " "), strings.Join(*acts, " "))
+	o.negLine = "neg " + strings.Join(*negActs, " ")
+	if len(c.chunks) > 0 && len(c.chunks[0]) > 0 && len(longest) > 0 && strings.HasPrefix(longest[0], "c") {
+		o.negCmp = true
+		o.negChunk = (len(longest[0]) - 1) / 2
+	}
+}
+
+// canonMux strips what the harness cannot observe from the model's reply.
+func canonMux(reply string) string {
+	f := strings.Fields(reply)
+	var out []string
+	for _, w := range f {
+		if strings.HasPrefix(w, "pos=") || strings.HasPrefix(w, "pending=") {
+			continue
+		}
+		out = append(out, w)
+	}
+	return strings.Join(out, " ")
+}
+
+// negAgree compares the negotiation model's reply with what was observed.
+func (c *muxCase) negAgree(o *muxObs, n int, reply string) (bool, string) {
+	// ok remaining=0 made=v.chunk.n panic=0
+	f := strings.Fields(reply)
+	if len(f) != 4 || f[0] != "ok" || f[1] != "remaining=0" || f[3] != "panic=0" {
+		return false, reply
+	}
+	m := strings.Split(strings.TrimPrefix(f[2], "made="), ".")
+	if len(m) != 3 || m[2] != strconv.Itoa(n) {
+		return false, reply
+	}
+	if o.negCmp {
+		mc, _ := strconv.Atoi(m[1])
+		if l := len(c.chunks[0]); mc > l {
+			mc = l
+		}
+		if mc != o.negChunk {
+			return false, fmt.Sprintf("%s (first chunk observed: %d bytes)", reply, o.negChunk)
+		}
+	}
+	return true, ""
+}
+
+var _ = testing.Short
